@@ -104,8 +104,9 @@ Proof. exact gen_no_overflow. Qed.
 Print Assumptions C29_gen_no_overflow.
 
 (* ---- the info tuple (signature ctype, Python function, error value, onerror) bound to a closure is
-   owned by closure->user_data alone; general_invoke_callback() borrows it.  Its Py_INCREF / Py_DECREF
-   positions relative to the `goto error` exits are regenerated into C29/GenInvoke.v on every run. *)
+   owned by closure->user_data alone; general_invoke_callback() borrows it.  Its Py_INCREF / Py_DECREF, its
+   reads of the tuple (and through pointers borrowed from it), its call-outs (during which Python code runs)
+   and its `goto error` exits are regenerated into C29/GenInvoke.v on every run, in source order. *)
 
 (* every path through general_invoke_callback — normal, or leaving through any of its `goto error`s
    (PyTuple_New failing, an ARGUMENT COMING FROM C that convert_to_object rejects, the Python function
@@ -115,20 +116,85 @@ Theorem C29_gen_invoke_paths_balanced : all_paths_balanced invoke_events = true.
 Proof. exact paths_balanced. Qed.
 Print Assumptions C29_gen_invoke_paths_balanced.
 
-(* user_data's tuple is alive as long as the closure is live: after ANY history of creations, failed
-   creations, drops and invocations along any path (so no later ffi.callback() can have its tuple placed
-   in the memory of a live callback's tuple) *)
+(* on every path, the function itself HOLDS a reference (own INCREFs - own DECREFs >= 1) at every call-out and,
+   from its first call-out on, at every read of the tuple / through a pointer borrowed from it, and it holds
+   none when it returns.  (An event list without INCREF/DECREF is balanced but not held: see
+   C29_example_no_incref_is_caught.) *)
+Theorem C29_gen_invoke_held_at_uses : held_at_uses invoke_events = true.
+Proof. exact held_invoke. Qed.
+Print Assumptions C29_gen_invoke_held_at_uses.
+
+(* THE CALLBACK THAT DROPS ITSELF WHILE RUNNING.  [rreachable invoke_events c rs]: rs is reached by ANY history
+   of Create / CreateFail / Drop / Call / RInvokeEnter h k (enter the closure of h, path k, run to the first
+   call-out) / RInvokeExit (the innermost invocation in flight continues to its next call-out or returns) —
+   so between Enter and Exit anything may happen: Drop of the callback that is running (its
+   cdataowninggc_dealloc decrements the tuple), creations re-using its closure address, nested and recursive
+   invocations.  For every invocation in flight, the tuple it works on is allocated with a count >= 1. *)
+Theorem C29_tuple_alive_during_call : forall c rs fr,
+  rreachable invoke_events c rs -> In fr (frames rs) ->
+  exists r, lookup N.eqb (f_tup fr) (trefs rs) = Some r /\ 1 <= r.
+Proof. exact (tuple_alive_during_call invoke_events held_invoke). Qed.
+Print Assumptions C29_tuple_alive_during_call.
+
+(* and no invocation, on any path, ever reads / INCREFs / DECREFs / calls out on a tuple that has been freed *)
+Theorem C29_no_use_after_free : forall c rs, rreachable invoke_events c rs -> uaf rs = false.
+Proof. exact (no_use_after_free invoke_events held_invoke). Qed.
+Print Assumptions C29_no_use_after_free.
+
+(* the two theorems above rest on nothing but [held_at_uses] of the event list *)
+Theorem C29_held_at_uses_suffices : forall ev, held_at_uses ev = true ->
+  forall c rs, rreachable ev c rs ->
+  uaf rs = false /\
+  forall fr, In fr (frames rs) -> exists r, lookup N.eqb (f_tup fr) (trefs rs) = Some r /\ 1 <= r.
+Proof.
+  intros ev H c rs HR. split; [exact (no_use_after_free ev H c rs HR)|].
+  intros fr. exact (tuple_alive_during_call ev H c rs fr HR).
+Qed.
+Print Assumptions C29_held_at_uses_suffices.
+
+(* user_data's tuple is alive as long as the closure is live: after ANY such history (so no later
+   ffi.callback() can have its tuple placed in the memory of a live callback's tuple) *)
 Theorem C29_tuple_alive_while_live : forall c rs h a,
-  rreachable c rs -> In (h, a) (live (base rs)) ->
-  exists r, lookup addr_eqb a (trefs rs) = Some r /\ 1 <= r.
-Proof. exact tuple_alive_while_live. Qed.
+  rreachable invoke_events c rs -> In (h, a) (live (base rs)) ->
+  exists t r, lookup addr_eqb a (tupof rs) = Some t /\ lookup N.eqb t (trefs rs) = Some r /\ 1 <= r.
+Proof. exact (tuple_alive_while_live invoke_events held_invoke). Qed.
 Print Assumptions C29_tuple_alive_while_live.
 
 Theorem C29_invoke_runs_own : forall c rs h a k,
-  rreachable c rs -> In (h, a) (live (base rs)) ->
-  exists f, lookup N.eqb h (made (base rs)) = Some f /\ snd (rstep c rs (RInvoke h k)) = OFn f.
-Proof. exact invoke_runs_own. Qed.
+  rreachable invoke_events c rs -> In (h, a) (live (base rs)) ->
+  exists f, lookup N.eqb h (made (base rs)) = Some f /\
+            snd (rstep invoke_events c rs (RInvokeEnter h k)) = OFn f.
+Proof. exact (invoke_runs_own invoke_events held_invoke). Qed.
 Print Assumptions C29_invoke_runs_own.
+
+(* non-vacuity, on the regenerated events: callback 1 is entered (normal path; suspended in PyObject_Call), its
+   Python function drops callback 1 and creates callback 2, which gets the SAME closure address; the
+   invocation of 1 is still in flight on tuple 0, count 1 (its own INCREF); callback 2 owns tuple 1; after the
+   remaining call-outs the invocation returns and tuple 0 is freed *)
+Example C29_example_self_drop :
+  let c := {| pagesize := 16; blocksize := 4 |} in
+  let rs := rrun invoke_events c rinit
+              [RBase (Create 1 10); RInvokeEnter 1 0; RBase (Drop 1); RBase (Create 2 20)]%N in
+  map f_tup (frames rs) = [0%N] /\ map f_own (frames rs) = [1] /\ trefs rs = [(1%N, 1); (0%N, 1)] /\
+  map snd (live (base rs)) = map fst (tupof rs) /\ tupof rs = [((0, 3), 1)]%N /\ uaf rs = false /\
+  let rs' := rrun invoke_events c rs [RInvokeExit; RInvokeExit; RInvokeExit; RInvokeExit] in
+  frames rs' = [] /\ trefs rs' = [(1%N, 1)] /\ uaf rs' = false.
+Proof. vm_compute. repeat split; reflexivity. Qed.
+
+(* non-vacuity of held_at_uses (REVIEW3): general_invoke_callback WITHOUT its Py_INCREF / Py_DECREF pair is
+   accepted by all_paths_balanced, rejected by held_at_uses, and in the model the self-dropping callback then
+   reads a freed tuple as soon as its Python function returns *)
+Example C29_example_no_incref_is_caught :
+  let ev := filter (fun e => negb (gev_eqb e GInc || gev_eqb e GDec)) invoke_events in
+  all_paths_balanced ev = true /\ held_at_uses ev = false /\
+  let c := {| pagesize := 16; blocksize := 4 |} in
+  uaf (rrun ev c rinit [RBase (Create 1 10); RInvokeEnter 1 0; RBase (Drop 1)]%N) = false /\
+  uaf (rrun ev c rinit [RBase (Create 1 10); RInvokeEnter 1 0; RBase (Drop 1); RInvokeExit]%N) = true /\
+  (* the same when the Python function raises (path 3: the `goto error` after PyObject_Call) *)
+  uaf (rrun ev c rinit [RBase (Create 1 10); RInvokeEnter 1 3; RBase (Drop 1); RInvokeExit]%N) = true /\
+  (* a DECREF moved above the Py_XDECREF(py_res) of the done: part is rejected too *)
+  held_at_uses [GUse; GInc; GCall; GUse; GDoneLabel; GDec; GCall; GReturn; GErrorLabel; GGotoDone] = false.
+Proof. vm_compute. repeat split; reflexivity. Qed.
 
 (* non-vacuity: with the INCREF moved below the argument conversion, the path through the second
    `goto error` (an argument that cannot be converted) drops a reference it never took *)
